@@ -2,6 +2,7 @@
 the real varlink-certification binary)."""
 import copy
 import json
+import math
 import os
 import shutil
 import socket
@@ -196,6 +197,14 @@ def mutations(params):
             yield "changed", path, setp(params, path, v + 1)
             if isinstance(v, float):
                 yield "changed", path, setp(params, path, v * 1.0000001 + 1e-9)
+                # near misses: the neighbouring floating-point numbers, and the value printed with
+                # fewer digits (a different number is a different value, however close)
+                near = [math.nextafter(v, math.inf), math.nextafter(v, -math.inf), v + 2e-13, v - 2e-13, float("%.15g" % v), float("%.12g" % v)]
+                seen = set()
+                for nv in near:
+                    if nv != v and nv not in seen:
+                        seen.add(nv)
+                        yield "changed-nearby-float", path, setp(params, path, nv)
         elif t == "string":
             yield "changed", path, setp(params, path, v + "x")
             yield "changed", path, setp(params, path, "")
